@@ -31,9 +31,14 @@ fn seg_type(i: u8) -> SegmentType {
 /// Afterwards the *last* segment has the kind `t0`, is empty and starts at the value; a new
 /// segment was opened iff the previous one already held an item.
 pub fn dir_org<S: Src>(s: &mut S, spelling: u8) {
+    // kind of the current segment and whether it already holds an item: chosen symbolically,
+    // explored on concrete paths (a symbolic choice merges two different segment lists on the heap)
+    let shape = s.below(6);
+    crate::split!(shape, 0, 6, |sh| dir_org_shape(s, spelling, sh % 3, sh >= 3));
+}
+
+fn dir_org_shape<S: Src>(s: &mut S, spelling: u8, t0: u8, nonempty: bool) {
     s.role(H_C02_STEP, 50 + spelling as u32);
-    let t0 = s.below(3);
-    let nonempty = s.bool();
     let v = s.u32();
     s.assume(v <= 0x3f_ffff);
     let ctx = fresh();
@@ -84,10 +89,12 @@ pub fn dir_org<S: Src>(s: &mut S, spelling: u8) {
 /// `.cseg / .dseg / .eseg` after a segment of kind `t0` that is empty or not: afterwards the
 /// last segment has the new kind and is empty; an earlier non-empty segment is untouched.
 pub fn dir_segment<S: Src>(s: &mut S) {
+    let shape = s.below(18);
+    crate::split!(shape, 0, 18, |sh| dir_segment_shape(s, sh % 3, (sh / 3) % 3, sh >= 9));
+}
+
+fn dir_segment_shape<S: Src>(s: &mut S, t0: u8, t1: u8, nonempty: bool) {
     s.role(H_C02_STEP, 60);
-    let t0 = s.below(3);
-    let t1 = s.below(3);
-    let nonempty = s.bool();
     let ctx = fresh();
     ctx.last_segment().unwrap().borrow_mut().t = seg_type(t0);
     if nonempty {
@@ -162,7 +169,8 @@ pub fn dir_byte<S: Src>(s: &mut S, spelling: u8) {
         }
     }
     chk!(s, r.is_ok(), "C06: .byte with a constant operand was rejected");
-    chk!(s, recorded == Some(v as i64), "C06: .byte n did not reserve n bytes");
+    // `.byte 0` reserves nothing either way: recording it or not is unobservable
+    chk!(s, recorded == Some(v as i64) || (v == 0 && recorded.is_none()), "C06: .byte n did not reserve n bytes");
     core::mem::forget(r);
     core::mem::forget(last);
     core::mem::forget(ctx);
